@@ -464,6 +464,7 @@ impl DecMode {
             MouseMotions,
             MouseSGR,
             AltScreen,
+            BracketedPaste,
             SynchronizedOutput,
         ]
         .iter()
